@@ -37,21 +37,58 @@ counters! {
 const N: usize = NAMES.len();
 #[allow(clippy::declare_interior_mutable_const)]
 const Z: AtomicU64 = AtomicU64::new(0);
-static COUNTERS: [AtomicU64; N] = [Z; N];
+
+/// The counters are sharded per thread (up to `SHARDS` threads own a shard each): a single shared
+/// array made every instrumented branch a contended atomic add when 16 worker threads divide in
+/// a tight loop.
+const SHARDS: usize = 64;
+#[repr(align(128))]
+struct Shard([AtomicU64; N]);
+#[allow(clippy::declare_interior_mutable_const)]
+const ZS: Shard = Shard([Z; N]);
+static COUNTERS: [Shard; SHARDS] = [ZS; SHARDS];
+
+#[cfg(feature = "std")]
+static NEXT_SHARD: core::sync::atomic::AtomicUsize = core::sync::atomic::AtomicUsize::new(0);
+#[cfg(feature = "std")]
+std::thread_local! {
+    static SHARD: core::cell::Cell<usize> = const { core::cell::Cell::new(usize::MAX) };
+}
+
+#[cfg(feature = "std")]
+#[inline]
+fn shard() -> usize {
+    SHARD.with(|s| {
+        let mut i = s.get();
+        if i == usize::MAX {
+            i = NEXT_SHARD.fetch_add(1, Ordering::Relaxed) % SHARDS;
+            s.set(i);
+        }
+        i
+    })
+}
+
+#[cfg(not(feature = "std"))]
+#[inline]
+fn shard() -> usize {
+    0
+}
 
 #[inline]
 pub fn hit(c: C) {
-    COUNTERS[c as usize].fetch_add(1, Ordering::Relaxed);
+    COUNTERS[shard()].0[c as usize].fetch_add(1, Ordering::Relaxed);
 }
 
 #[must_use]
 pub fn get(c: C) -> u64 {
-    COUNTERS[c as usize].load(Ordering::Relaxed)
+    COUNTERS.iter().map(|s| s.0[c as usize].load(Ordering::Relaxed)).sum()
 }
 
 pub fn reset() {
-    for c in &COUNTERS {
-        c.store(0, Ordering::Relaxed);
+    for s in &COUNTERS {
+        for c in &s.0 {
+            c.store(0, Ordering::Relaxed);
+        }
     }
 }
 
